@@ -1066,6 +1066,17 @@ def directed_cases(ctx):
     out.append(mk(cs={"maxVersion": (3, 3), "keyExchangeNames": ["ecdh_anon"], "eccCurves": ["secp256r1"], "keyShares": ["secp256r1"]},
                   ss={"maxVersion": (3, 3), "keyExchangeNames": ["ecdh_anon"], "eccCurves": ["secp384r1"], "keyShares": ["secp384r1"]},
                   cflavour="anon", sflavour="anon", scred=None))
+    # the regions `compatible` has to exclude (counterexample theorems of Props/C03 section 5)
+    out.append(mk(cs={"maxVersion": (3, 3), "keyExchangeNames": ["dhe_rsa", "rsa"], "dhGroups": [], "minKeySize": 2048},
+                  ss={"maxVersion": (3, 3), "keyExchangeNames": ["dhe_rsa", "rsa"], "dhParams": dh_params(1536)}))
+    out.append(mk(cs={"cipherNames": ["aes128"]}, ss={}))
+    out.append(mk(cs={"cipherNames": ["aes128"], "maxVersion": (3, 3)}, ss={}))
+    out.append(mk(cs={"rsaSigHashes": ["sha256"]}, ss={"maxVersion": (3, 2), "rsaSigHashes": ["sha384"]}))
+    out.append(mk(cs={"rsaSigHashes": ["sha256"]}, ss={"maxVersion": (3, 2), "rsaSigHashes": ["sha256"]}))
+    out.append(mk(cs={"maxVersion": (3, 3), "keyExchangeNames": ["rsa"], "rsaSigHashes": ["sha256"]},
+                  ss={"maxVersion": (3, 3), "keyExchangeNames": ["rsa"], "rsaSigHashes": ["sha384"]}))
+    out.append(mk(cs={"eccCurves": ["secp256k1"], "keyShares": ["secp256k1"], "dhGroups": []},
+                  ss={"eccCurves": ["secp256k1"], "keyShares": ["secp256k1"], "dhGroups": []}))
     # curves: client preference decides in TLS 1.2, server preference in TLS 1.3
     out.append(mk(cs={"maxVersion": (3, 3), "eccCurves": ["secp384r1", "secp256r1"]}, ss={"eccCurves": ["secp256r1", "secp384r1"]}))
     out.append(mk(cs={"eccCurves": ["secp384r1", "secp256r1"], "keyShares": ["secp384r1", "secp256r1"]},
@@ -1131,8 +1142,58 @@ def evaluate(ctx, case, pending):
         ctx.count("faulty-server:%s -> %s" % (case["fault"], out[0] if out[0] == "ok" else " ".join(str(x) for x in out[:3])))
         return
     pending.append(("negotiate", case, fmt_outcome(out), enc_case(case, cs, ss)))
+    # completeness side: `compatible` (proved to imply completion inside wf/plainCert/clientHelloSane)
+    pending.append(("compatible", case, ("live", out[0] == "ok", c19_expectation(case, cs, ss)),
+                    enc_case(case, cs, ss, "compat")))
     if out[0] == "ok":
         pending.append(("views", case, impl_views(L), enc_case(case, cs, ss, "views")))
+
+
+_C19 = {}
+
+
+def c19_expectation(case, cs, ss):
+    """the independent expectation of harness/props/c19_pairs.py (imported read-only) for this pair:
+    (verdict, reason) or None when it does not apply"""
+    if case["cflavour"] != "cert" or case["sflavour"] != "cert":
+        return None
+    try:
+        from . import c19_pairs as P
+        if case["scred"] not in P.CRED_FACTS:
+            return None
+        if "table" not in _C19:
+            _C19["table"] = P.suite_table()
+        verdict, why, _ = P.compatible(_C19["table"], P.settings_dict(cs), P.settings_dict(ss), case["scred"])
+        return (verdict, why)
+    except Exception as e:      # the other builder's file is not ours to depend on
+        return ("error", type(e).__name__)
+
+
+def judge_compatible(ctx, case, want, line, reply):
+    """reply: wfc= wfs= plain= sane= v= compat= ; want: ("live", completed?, c19 expectation)"""
+    try:
+        m = dict(x.split("=") for x in reply.split())
+    except ValueError:
+        ctx.disagree("compatible", {"case": jsonable_case(case), "line": line}, reply, "unparsable")
+        return
+    _, live_ok, c19 = want
+    if m.get("plain") == "1" and m.get("sane") != "1":
+        # the hypothesis `clientHelloSane` is claimed to follow from validate(): it must hold on every generated client
+        ctx.disagree("compatible:clientHelloSane", {"case": jsonable_case(case), "line": line}, reply, "sane expected")
+    region = m.get("wfc") == "1" and m.get("wfs") == "1" and m.get("plain") == "1" and m.get("sane") == "1"
+    if not region:
+        ctx.count("compatible:outside-proved-region")
+        return
+    ctx.count("compatible:%s live:%s" % (m["compat"], "ok" if live_ok else "fail"))
+    if m["compat"] == "1" and not live_ok:
+        ctx.disagree("compatible", {"case": jsonable_case(case), "line": line}, reply, "compatible settings did not complete")
+    if c19 is not None and not (case["calpn"] and case["salpn"]):
+        ctx.count("compatible-vs-c19:%s/%s" % (m["compat"], c19[0]))
+        if c19[0] is True and m["compat"] != "1":
+            ctx.disagree("compatible-vs-c19", {"case": jsonable_case(case), "line": line}, reply,
+                         "c19_pairs.compatible says must complete (%s)" % (c19[1],))
+        if c19[0] is False and m["compat"] == "1":
+            ctx.count("info:compatible-but-c19-says-no:%s" % (c19[1],))
 
 
 def flush(ctx, pending):
@@ -1143,6 +1204,9 @@ def flush(ctx, pending):
     outs = lc.batch([line for _, _, _, line in pending])
     for (stream, case, want, line), m in zip(pending, outs):
         ctx.compared()
+        if stream == "compatible":
+            judge_compatible(ctx, case, want, line, m)
+            continue
         if m != want:
             ctx.disagree(stream, {"case": jsonable_case(case), "line": line}, m, want)
     del pending[:]
@@ -1169,7 +1233,7 @@ def run(ctx):
         "an alert' (keys c03:fails-without-alert:<side>:<exception>:<function>)",
         "faulty-server scenarios judge only what the client accepted (keys c03:faulty-server:*)"]
     import time
-    budget = ctx.pick(150, 1300)
+    budget = ctx.pick(110, 1250)
     t0 = time.time()
     pending = []
     for case in directed_cases(ctx):
@@ -1177,7 +1241,7 @@ def run(ctx):
     flush(ctx, pending)
     for case in directed_resume_cases(ctx):
         evaluate_resume(ctx, case)
-    n = ctx.pick(4000, 60000)
+    n = ctx.pick(3400, 60000)
     for i in range(n):
         if time.time() - t0 > budget:
             break
